@@ -24,7 +24,7 @@ func genHandles(seed uint64, tier string) *Plan {
 	k["protect"] = 0
 	k["kv"] = r.Intn(2)
 	k["nkeys"] = r.Range(2, 5)
-	nsnaps := r.Range(1, 3)
+	nsnaps := r.Range(1, 5)
 	k["nsnaps"] = nsnaps
 	k["later"] = r.Range(1, 3)
 	k["nwriters"] = 1
@@ -69,7 +69,9 @@ func genHandles(seed uint64, tier string) *Plan {
 		// the owner's final Close, after a drawn number of scheduling points
 		p.Tasks = append(p.Tasks, TaskPlan{Name: fmt.Sprintf("o%d", s), Phase: -1, Ops: []Op{{K: "wait", A: []int{r.Intn(6)}}, {K: "close", A: []int{s}}}})
 	}
-	stall := []int{nitro.SiteOpenInc, nitro.SiteCloseDec, nitro.SiteCloseRetire, nitro.SiteCloseMove, nitro.SiteCloseGC, nitro.SiteGCTry}
+	// incl. the inside of the collection pass: several last-reference Closes overlap one pass
+	stall := []int{nitro.SiteOpenInc, nitro.SiteCloseDec, nitro.SiteCloseRetire, nitro.SiteCloseMove, nitro.SiteCloseGC, nitro.SiteGCTry,
+		nitro.SiteGCRelease, nitro.SiteCollectCheck, nitro.SiteCollectStore, nitro.SiteCollectSend}
 	p.Sched = GenSched(r, seed, 100*p.NumOps()+200, stall)
 	return p
 }
